@@ -87,7 +87,9 @@ func genInsertBody(rt *rapid.T, env *dataEnv) []*tw.Stmt {
 func genPage(rt *rapid.T, env *dataEnv, layoutRef string, k int, where map[string]string) ([]*tw.Stmt, map[string]string) {
 	forms := map[string]string{}
 	page := []*tw.Stmt{{Kind: tw.SUse, Name: layoutRef}}
-	junk := []string{"\n", "\n\n", "<p>outside</p>\n", " ", "IGNORED", "{{-- c --}}"}
+	// (what stands outside the inserts is not rendered, whatever it is: text, comments, blocks, prints, directives)
+	junk := []string{"\n", "\n\n", "<p>outside</p>\n", " ", "IGNORED", "{{-- c --}}", "@if(true)<p>OUTSIDE-IF</p>@end", "@each(zz in [1, 2])OUTSIDE-EACH{{ zz }}@end",
+		"{{ \"OUTSIDE-PRINT\" }}", "@if(zzUndefinedOutside)x@end\n", "@for(zq = 0; zq < 2; zq++)OUTSIDE-FOR@end", "@dump(1)", "{{ 1 / 0 }}"}
 	order := rapid.Permutation([]int{0, 1, 2, 3}[:k]).Draw(rt, "insertOrder")
 	for _, i := range order {
 		if rapid.IntRange(0, 3).Draw(rt, "omitInsert") == 0 {
@@ -135,7 +137,7 @@ func genPage(rt *rapid.T, env *dataEnv, layoutRef string, k int, where map[strin
 
 func TestC06_Layouts(t *testing.T) {
 	c := harness.New(t, "C06", "layouts",
-		"template directories with a layout (1..4 distinct reserves at top level, inside @if(data flag), inside @each(data array) with loop.index, in attribute-like text, nested @if/@each/@if, in the @else of an @each / @for, in an @elseif branch) and a page using it by '~name', 'layouts/name' or another spelling of that path (/layouts/name, ./layouts/name, layouts//name, pages/../layouts/name; names with dots, dashes and digits included), the @use standing before, between or after the inserts, inserting a random subset of the reserves in random order, block form (markers, prints of data, @if/@each bodies, steps of a counter the layout declares and prints at its end) or expression form, with junk text, comments and blank lines between inserts; data maps with every kind; directory 't' or 'x/t', extensions .tw / .tw.html / .html. Expected output: the reference composition model (layout rendered with each reserve replaced by the reference rendering of its insert, page text outside inserts discarded). Non-trivial: >= 2 reserves, one nested in @if/@each, and a proper non-empty subset inserted. Distinct by hash of files + data.")
+		"template directories with a layout (1..4 distinct reserves at top level, inside @if(data flag), inside @each(data array) with loop.index, in attribute-like text, nested @if/@each/@if, in the @else of an @each / @for, in an @elseif branch) and a page using it by '~name', 'layouts/name' or another spelling of that path (/layouts/name, ./layouts/name, layouts//name, pages/../layouts/name; names with dots, dashes and digits included), the @use standing before, between or after the inserts, inserting a random subset of the reserves in random order, block form (markers, prints of data, @if/@each bodies, steps of a counter the layout declares and prints at its end) or expression form, with junk between the inserts (text, comments, blank lines, @if / @each / @for blocks, prints, @dump, expressions that would fail); data maps with every kind; directory 't' or 'x/t', extensions .tw / .tw.html / .html. Expected output: the reference composition model (layout rendered with each reserve replaced by the reference rendering of its insert, page text outside inserts discarded). Non-trivial: >= 2 reserves, one nested in @if/@each, and a proper non-empty subset inserted. Distinct by hash of files + data.")
 	defer c.Finish()
 	in := interp()
 	runRapid(t, c, 4000, 45000, func(rt *rapid.T) {
